@@ -291,6 +291,7 @@ class CasXmiDeserializer:
 
         cas = Cas(typesystem=typesystem, lenient=lenient)
         converted_ids = set()
+        member_sofas = {}
         for sofa in sofas.values():
             if sofa.sofaID == "_InitialView":
                 view = cas.get_view("_InitialView")
@@ -321,13 +322,22 @@ class CasXmiDeserializer:
 
                 fs = feature_structures[member_id]
 
+                # A structure can be a member of several views: it keeps the sofa the document names for it
+                # (`view.add` points it to the view at hand) and its offsets are mapped only once
+                own_sofa = member_sofas.setdefault(member_id, getattr(fs, "sofa", None))
+
                 # Map from offsets in UIMA UTF-16 based offsets to Unicode codepoints
-                if typesystem.is_instance_of(fs.type.name, TYPE_NAME_ANNOTATION):
-                    fs.begin = sofa._offset_converter.external_to_python(fs.begin)
-                    fs.end = sofa._offset_converter.external_to_python(fs.end)
+                if member_id not in converted_ids and typesystem.is_instance_of(fs.type.name, TYPE_NAME_ANNOTATION):
+                    converter = (own_sofa if isinstance(own_sofa, Sofa) else sofa)._offset_converter
+                    fs.begin = converter.external_to_python(fs.begin)
+                    fs.end = converter.external_to_python(fs.end)
                     converted_ids.add(member_id)
 
                 view.add(fs, keep_id=True)
+
+        for member_id, own_sofa in member_sofas.items():
+            if isinstance(own_sofa, Sofa):
+                feature_structures[member_id].sofa = cas.get_view(own_sofa.sofaID).get_sofa()
 
         # Annotations that are not indexed in any view but only referenced need their offsets mapped as well
         for xmi_id, fs in feature_structures.items():
